@@ -394,7 +394,8 @@ func (p *Program) Roles() *Roles {
 			if st, ok := i.(*ssa.Store); ok {
 				if fa, ok := st.Addr.(*ssa.FieldAddr); ok {
 					if o := ownerOfFieldAddr(fa); (o == "Container" || o == "WebService") && !p.freshBase(fa) {
-						if _, isSlice := fieldOfAddr(fa).Type().Underlying().(*types.Slice); isSlice {
+						// the two lists that ARE the registration (not bookkeeping next to them)
+						if n := fieldOfAddr(fa).Name(); n == "webServices" || n == "routes" {
 							regFields[fieldOfAddr(fa)] = true
 						}
 					}
